@@ -113,6 +113,7 @@ class Engine(Core, ExprMixin, CallMixin, StmtMixin):
                 self.oblige("safe", "returns-on-every-path", zbool(st.ret), self._exit_state(st), fn)
             env2["result"] = self.coerce(rv, c.returns, fn)
         exit_st = self._exit_state(st)
+        self.probe("exit-reachable", exit_st)
         for label, e in c.ensures_labeled:
             g = self.eval_spec(e, env2, exit_st, old_heap=self.fn_old_heap, old_env=env)
             self.oblige("post", label, g, exit_st, fn, info={"clause": e})
